@@ -29,6 +29,8 @@ def score_c07(chk: Check, ep: qos.Episode, res: qos.Result) -> None:
         t_done, kind, txt = res.outcomes[i]
         t0 = res.started.get(i, c["t"])
         bound = min(c["timeout"], 20.0)
+        if qos.HGI not in q[:17]:
+            bound += 20.0       # "plus only the time taken by a mandatory impersonation notice sent ahead of it" (itself a send)
         if t_done - t0 > bound + EPS:
             chk.violation("c07.late", f"call {i} finished after {t_done - t0:.6f}s, timeout {bound}", {"episode": ep.to_json()})
         if kind == "ok":
@@ -65,7 +67,7 @@ def score_c08(chk: Check, ep: qos.Episode, res: qos.Result) -> None:
             chk.violation("c08.tx_after_outcome", f"call {i} answered at {res.outcomes[i][0]} but transmitted at {ws}", {"episode": ep.to_json()})
     # ... and no fewer, if its timeout allows: a caller is told "failed" before its own deadline only when the
     # budget is spent (or the link / a write failed)
-    faults = bool(res.conn_lost_at) or any(v.get("fail") for v in ep.tx.values())
+    faults = bool(res.conn_lost_at) or bool(res.paused) or any(v.get("fail") for v in ep.tx.values())
     for i, c in enumerate(ep.calls):
         if faults or i not in res.outcomes or res.outcomes[i][1] != "err" or i not in res.started:
             continue
@@ -84,8 +86,8 @@ def score_c08(chk: Check, ep: qos.Episode, res: qos.Result) -> None:
     started = {i: by_call[i][0] for i in by_call}
     for i in started:
         for j in started:
-            if i == j:
-                continue
+            if i == j or ep.calls[i]["cmd"] >= qos.N_PLAIN or ep.calls[j]["cmd"] >= qos.N_PLAIN:
+                continue   # (a command sent in another device's name joins the queue only after its notice has gone out)
             ti, tj = res.started.get(i, 0), res.started.get(j, 0)
             both_queued_before = max(ti, tj) < min(started[i], started[j]) - EPS
             first = (ep.calls[i]["prio"], res.seq.get(i, i)) < (ep.calls[j]["prio"], res.seq.get(j, j))
